@@ -4,8 +4,8 @@ SPECIFICATION Spec
 CONSTANTS
   Mutation = "none"
   NilDictIsNull = TRUE
-  WriterAddsLength = FALSE
-  WriterEscapesKeys = FALSE
+  WriterAddsLength = TRUE
+  WriterEscapesKeys = TRUE
   OpKinds = {"q", "cm", "w", "Tf", "Tj", "TJ", "'", "dq", "BDC", "B", "B*", "BT", "d", "sc", "unk", "img", "imgE"}
   MaxOps = 1
   DataAlphabet = {69, 73, 32, 10, 13, 120}
@@ -13,5 +13,5 @@ CONSTANTS
   CallSet = {"q", "Q", "BT", "ET", "BMC", "EMC", "BX", "EX", "m", "re", "l", "h", "S", "f", "n", "W", "w", "TL", "Td", "T*", "Tj", "BI"}
   MaxCalls = 6
   Pre2 = TRUE
-INVARIANTS RoundTripOps SplitOK ImageRoundTrip ClosingOK NestTypeOK NestShape
+INVARIANTS RoundTripOps SplitOK ImageRoundTrip ImageAlwaysRoundTrips ClosingOK NestTypeOK NestShape
 CHECK_DEADLOCK FALSE
